@@ -4,6 +4,7 @@ import (
 	"fmt"
 	"go/token"
 	"sort"
+	"strconv"
 	"strings"
 
 	"golang.org/x/tools/go/ssa"
@@ -342,6 +343,47 @@ func (cx *Ctx) checkEndpointFuncs(r *Report) {
 			okAE = true
 		}
 	}
+	// the exact composition: Relative = "/" + TrimPrefix(path, "/"); Absolute (no override) = TrimSuffix(host, "/") + the same
+	describe := func(fn *ssa.Function, v ssa.Value) string {
+		var out []string
+		for _, p := range mergeLits(cx.strParts(v)) {
+			switch {
+			case p.IsLit:
+				out = append(out, strconv.Quote(p.Lit))
+			default:
+				d := cx.Fx.path(p.Val)
+				if c, isC := p.Val.(*ssa.Call); isC {
+					n := shortCallee(calleeName(c))
+					if (n == "strings.TrimPrefix" || n == "strings.TrimSuffix") && len(c.Call.Args) == 2 {
+						cut, _ := constString(c.Call.Args[1])
+						arg := c.Call.Args[0]
+						if par, isP := arg.(*ssa.Parameter); isP {
+							if a, bound := p.Sub[par]; bound {
+								arg = a
+							}
+						}
+						d = n + "(" + cx.Fx.T(cx.Fx.path(arg)) + "," + strconv.Quote(cut) + ")"
+					}
+				}
+				out = append(out, d)
+			}
+		}
+		return strings.Join(out, " + ")
+	}
+	for _, ret := range returnsOf(rel) {
+		got := describe(rel, ret.Results[0])
+		r.Check(got == `"/" + strings.TrimPrefix(<provider.Endpoint>.path,"/")`, "R-SIB", "Endpoint.Relative:composition", w.InstrPos(ret), got, "Endpoint.Relative returns "+got+`, not "/" + the path without its leading slash: the routed path differs from the advertised one`)
+	}
+	nAbs := 0
+	for _, ret := range returnsOf(abs) {
+		got := describe(abs, ret.Results[0])
+		if got == "<provider.Endpoint>.url" || strings.HasSuffix(got, ".url") {
+			continue // the configured override
+		}
+		nAbs++
+		r.Check(got == `strings.TrimSuffix(<#1 string>,"/") + "/" + strings.TrimPrefix(<provider.Endpoint>.path,"/")`, "R-SIB", "Endpoint.Absolute:composition", w.InstrPos(ret), got, "Endpoint.Absolute returns "+got+`, not the issuer without trailing slash + "/" + the path without leading slash: the advertised location is not where the route is`)
+	}
+	r.Check(nAbs >= 1, "R-SIB", "Endpoint.Absolute:composition#", w.FnPos(abs), "a computed (non-override) return exists", "Endpoint.Absolute has no return that composes issuer and path")
 	r.Check(okAE, "R-SIB", "Absolute-via-absoluteEndpoint", w.FnPos(abs), "Absolute uses absoluteEndpoint(host, path)", "Endpoint.Absolute no longer uses absoluteEndpoint")
 }
 
